@@ -2,7 +2,10 @@
 
 Implementation side: every diagram of the corpus models and generated diagrams (built directly from
 capellambse.diagram.Diagram/Box/Edge/Circle) covering every (diagram class x element kind x style
-class x label/feature shape x override) combination of the style tables are rendered through the
+class x label/feature shape x override) combination of the style tables, plus a single-element probe over the FULL
+cross product element kind (box, symbol, box_symbol, edge, circle) x style class (every Type.Class key of every table
+of STYLES, every name of the symbol registry, every string of every set in svg/decorations.py, the oracle's own list
+of port classes) x diagram class — also the pairings the stock tables and models do not contain — are rendered through the
 public converter chain, re-parsed with lxml and checked by an oracle that shares no code with
 capellambse; the abstract SVG (viewBox, groups, ids under <defs>, referenced ids) is compared with
 what the Coq model (Model/SvgInst.v w_render) predicts for the same diagram.
@@ -853,7 +856,9 @@ def run(chk: lib.Check):
         "exhaustive over diagram classes (STYLES keys and None) x element kinds x style classes (STYLES Type.Class keys of the diagram "
         "class and __GLOBAL__, symbol registry names, port classes) x label/floating/feature shapes; overrides: "
         + ("one of the 7-entry menu per element, rotating with the seed" if quick else "all 7 menu entries")
-        + "; labels drawn from markup strings and the XML-legal character ranges; plus mixed multi-element diagrams, label stress "
+        + "; a single-element probe for every remaining pairing of the five element kinds with every class of every STYLES table, of the "
+          "symbol registry and of every set of svg/decorations.py (classes of a table under its diagram class and under none, the others under "
+          "every diagram class); labels drawn from markup strings and the XML-legal character ranges; plus mixed multi-element diagrams, label stress "
           "in minimum-size boxes, all diagrams of the corpus models; non-trivial = every rendered diagram")
     chk.coverage["exhaustive"] = True
     chk.assumptions += [
